@@ -202,13 +202,18 @@ def ratio_witness(ctx, m, succ, rate):
     from mirsmt import smt
     from vlib import native
     succ_k = T.substitute(succ, {rate: T.mk('fdiv', k_f, n_f)})
-    hyps = [T.mk('ige', k_i, T.iconst(2)), T.mk('ile', k_i, T.mk('isub', n_i, T.iconst(2))), T.mk('ile', n_i, T.iconst(2 ** 24)), T.mk('ine', succ_k, k_i)]
-    text = m.query_text(hyps, None, sem=('F', 11, 53))
-    for solver, tmo in (('cvc5', 240), ('z3-new', 400)):
+    # not(k recovered), as float comparisons on the product (exact for these small integers); n, k as bit-vectors
+    hyps = [T.mk('ige', k_i, T.iconst(2)), T.mk('ile', k_i, T.mk('isub', n_i, T.iconst(2))), T.mk('ile', n_i, T.iconst(2 ** 24)), T.mk('ige', n_i, T.iconst(4)),
+            T.not_(int_conversion_goal(succ_k, k_i))]
+    text = m.query_text(hyps, None, sem=('F', 11, 53, 'bv'))
+    for solver, tmo in (('cvc5', 200), ('z3-new', 300)):
         verdict, out, dt = smt.run_solver(text, solver, tmo, ctx.seed)
         ctx.solver_time += dt
         if verdict == 'sat':
-            vals = dict(re_int(out))
+            vals = {}
+            import re
+            for mm in re.finditer(r'\(define-fun (\w+) \(\) \(_ BitVec 64\)\s+#(x|b)([0-9a-f]+)\)', out):
+                vals[mm.group(1)] = int(mm.group(3), 16 if mm.group(2) == 'x' else 2)
             if 'n' in vals and 'k' in vals:
                 return native.replay_ratio(ctx, vals['n'], vals['k'])
     return False, None, 'no bit-precise witness found within the budget'
